@@ -66,9 +66,9 @@ def replay(sd, binary, behs, tag, shards=1, env=None, timeout=3000):
     with ThreadPoolExecutor(max_workers=shards) as ex:
         parts = list(ex.map(one, range(shards)))
     res = {"behaviours": 0, "steps": 0, "mismatches": [], "key_counts": {}, "bad_behaviours": [], "act_counts": {},
-           "accepted": 0, "upgrades": 0, "slow_ops": 0, "resets": 0, "transitions": set(), "elapsed_ms": 0}
+           "accepted": 0, "upgrades": 0, "slow_ops": 0, "resets": 0, "alt_taken": 0, "transitions": set(), "elapsed_ms": 0}
     for r in parts:
-        for k in ("behaviours", "steps", "accepted", "upgrades", "slow_ops", "resets"):
+        for k in ("behaviours", "steps", "accepted", "upgrades", "slow_ops", "resets", "alt_taken"):
             res[k] += r[k]
         res["elapsed_ms"] = max(res["elapsed_ms"], r["elapsed_ms"])
         res["mismatches"] += r.get("mismatches") or []
@@ -139,7 +139,8 @@ def run():
             fmc.append((pool.submit(vf.tlc, "Passwords", "Passwords", "Passwords_MC2.cfg", sd, workers=4, timeout=3000),
                         "MC two users (independence, the other user's password as candidate)"))
         # 2. negative controls
-        fneg = [(cfg, what, pool.submit(vf.tlc, "Passwords", "Passwords", cfg, sd, workers=2, timeout=1500)) for cfg, what in NEG]
+        fneg = [(cfg, what, pool.submit(vf.tlc, "Passwords", "Passwords", cfg, sd, workers=1, timeout=1500))
+                for cfg, what in (NEG if thorough else NEG[:1] + NEG[3:])]
         for f, name in fmc:
             chk.add_tlc(vf.tlc_ok(f.result(), name), name)
         for cfg, what, f in fneg:
@@ -174,7 +175,7 @@ def run():
         chk.cov["behaviours"] = {"cells": len(cells), "table": len(table), "walks": len(walks)}
         chk.cov["abstract_validate_cases"] = len(allc)
         chk.cov["replay"] = {"upgrades_observed": rs["upgrades"], "accepted": rs["accepted"] + rc["accepted"],
-                             "bcrypt12_operations": rs["slow_ops"] + rc["slow_ops"], "store_installs": rs["resets"] + rc["resets"],
+                             "bcrypt12_operations": rs["slow_ops"] + rc["slow_ops"], "store_installs": rs["resets"] + rc["resets"], "allowed_alternative_outcomes": rs["alt_taken"] + rc["alt_taken"],
                              "act_counts": {k: rc["act_counts"].get(k, 0) + rs["act_counts"].get(k, 0) for k in set(rc["act_counts"]) | set(rs["act_counts"])},
                              "ms": {"cells": rc["elapsed_ms"], "slow": rs["elapsed_ms"]}}
         chk.sample({"kind": "table behaviour (call, reply)", "steps": [[s["call"], s["reply"]] for s in table[0]][:20]})
@@ -237,7 +238,7 @@ def selftest(chk, sd, binary, cells, table, rc, rs, rng):
         b[1]["st"]["users"][n].update(fmt="bcrypt", ver=1, cost=12)
         pert.append(b); expect.append((1, "state", "users"))
     # (e) a successful legacy login whose upgrade is expected NOT to have happened (2 real bcrypt operations per store)
-    tb = [b for b in table if b[0]["st"]["users"][b[1]["call"]["n"]]["fmt"] == "sha" and b[1]["st"]["users"][b[1]["call"]["n"]]["fmt"] == "bcrypt"]
+    tb = [b for b in table if b[1]["reply"] is True and b[0]["st"]["users"][b[1]["call"]["n"]]["fmt"] == "sha" and b[1]["st"]["users"][b[1]["call"]["n"]]["fmt"] == "bcrypt"]
     if tb:
         b = json.loads(json.dumps(rng.choice(tb)[:2]))
         b[1]["st"] = json.loads(json.dumps(b[0]["st"]))
